@@ -238,6 +238,62 @@ def gen_clearq(rng, na, ctls):
         ev += ["M%d.1" % rng.randrange(na), "r", cc(ctls[-1], 7), "n", "r", cc(ctls[-1], 8)]
     return ev
 
+def gen_clearcross(rng, na, ctls):
+    """clear() between the two halves' messages: an address is queued and watched, a free
+    controller uses the watch up, clear() runs while the midi-use-CC is still on its way (or just
+    after it was served, or before the watch arrived); every order of the deliveries that follow;
+    then another address is mapped and must be learned by a free controller"""
+    a = list(range(na))
+    rng.shuffle(a)
+    c0, c1 = ctls[0], ctls[1 % len(ctls)]
+    ev = []
+    if rng.random() < 0.4:          # something bound before
+        ev += ["M%d.1" % a[-1], "r", cc(ctls[-1], 9), "n", "r"]
+    ev += ["M%d.%d" % (a[0], rng.choice([1, 1, 0]))]
+    shape = rng.randrange(6)
+    if shape == 0:                  # the seeded shape: offer, clear, then the deliveries in any order
+        ev += ["r", cc(c0, 64), "X"]
+    elif shape == 1:                # two addresses queued, one offer
+        ev += ["M%d.1" % a[1], "r", "r", cc(c0, 64), "X"]
+    elif shape == 2:                # the offer falls between clear() and the arrival of its messages
+        ev += ["r", "X", cc(c0, 64)]
+    elif shape == 3:                # clear() before the watch has arrived
+        ev += ["X", "r", cc(c0, 64)]
+    elif shape == 4:                # served, answer on its way, then clear()
+        ev += ["r", cc(c0, 64), "n", "X"]
+    else:                           # clear(), map again, then the old midi-use-CC arrives
+        ev += ["r", cc(c0, 64), "X", "M%d.1" % a[1]]
+    tail = ["n", "r", "r", "r"]
+    rng.shuffle(tail)
+    ev += tail + ["r", "n", "r"]
+    # afterwards: a fresh learn must work, for the controller involved and for another one
+    b = a[1] if na > 1 else a[0]
+    who = rng.choice([c0, c1])
+    ev += ["M%d.1" % b, "r", cc(who, 1), "n", "r", cc(who, 100), cc(c0, 2), cc(c1, 3)]
+    if rng.random() < 0.5:
+        ev += ["M%d.0" % b, "r", cc(c1 if who == c0 else c0, 5), "n", "r", cc(c0, 6), cc(c1, 7)]
+    return ev
+
+def gen_answered(rng, na, ctls):
+    """a map / unMap / clear whose bind is sent while controllers are pending whose answers are
+    already on their way (admitted by nocross, not by the earlier `quiescent`)"""
+    a = list(range(na))
+    rng.shuffle(a)
+    cs = list(ctls)
+    rng.shuffle(cs)
+    ev = ["M%d.1" % a[0], "r", cc(cs[0], 3), "n", "r"]            # a[0] bound to cs[0]
+    k = rng.choice([1, 2]) if na > 2 and len(cs) > 2 else 1
+    for x in a[1:1 + k]:
+        ev += ["M%d.%d" % (x, rng.choice([1, 1, 0]))]
+    ev += ["r"] * k
+    ev += [cc(c, rng.randrange(128)) for c in cs[1:1 + k]]
+    ev += ["n"] * k                                                # all answered, answers in flight
+    ev.append(rng.choice(["U%d.1" % a[0], "M%d.1" % a[0], "M%d.0" % a[0], "X", "U%d.1" % a[1]]))
+    ev += ["r"] * rng.choice([0, 1, k]) + [cc(c, rng.randrange(128)) for c in cs[:1 + k]]
+    ev += ["r"] * (k + 3) + ["n", "r"]
+    ev += [cc(c, rng.randrange(128)) for c in cs[:1 + k]]
+    return ev
+
 def interleavings(base, ndel):
     """all histories that insert at most ndel deliveries (r/n) into base"""
     k = len(base)
@@ -255,12 +311,12 @@ def interleavings(base, ndel):
                 out.append(h)
     return out
 
-def mk_case(rng, ports, ev, ctls, dist, kind):
+def mk_case(rng, ports, ev, ctls, dist, kind, extra=None):
     ev = list(ev) + DRAIN + probes(rng, ctls)
     dist["kind=" + kind] = dist.get("kind=" + kind, 0) + 1
     dist["addresses=%d" % len(ports)] = dist.get("addresses=%d" % len(ports), 0) + 1
     dist["controllers=%d" % len(ctls)] = dist.get("controllers=%d" % len(ctls), 0) + 1
-    return "hist %s %s" % (",".join(port_field(p) for p in ports), ",".join(ev))
+    return "hist %s %s" % (",".join(port_field(p) for p in ports), ",".join(ev)) + (" " + extra if extra else "")
 
 def pick_ports(rng):
     na = rng.choice([2, 2, 3, 3, 4])
@@ -308,6 +364,14 @@ def gen(rng, tier, dist):
             out.append(mk_case(rng, ports, gen_twokinds(rng, len(ports), ctls), ctls, dist, "two-kinds"))
         else:
             out.append(mk_case(rng, ports, gen_clearq(rng, len(ports), ctls), ctls, dist, "clear-queue"))
+    # clear() between the halves' messages; foreign binds sent while answered controllers are pending
+    for i in range(500 if tier == "quick" else 6000):
+        ports = pick_ports(rng)
+        ctls = rand_ctls(rng)
+        if i % 5 < 3:
+            out.append(mk_case(rng, ports, gen_clearcross(rng, len(ports), ctls), ctls, dist, "clear-cross"))
+        else:
+            out.append(mk_case(rng, ports, gen_answered(rng, len(ports), ctls), ctls, dist, "answered-pending"))
     # exactly 32 controllers offered at once (the PendingQueue's capacity), over a larger table
     for i in range(1 if tier == "quick" else 6):
         n = 34
@@ -317,6 +381,18 @@ def gen(rng, tier, dist):
         ev += ["C%d.2.1.0" % rng.randrange(32)]
         ev += ["n"] * 33 + ["r"] * 34 + ["C%d.%d.1.0" % (j, rng.randrange(128)) for j in range(0, 34, 3)]
         out.append(mk_case(rng, ports, ev, [(0, 1, 0), (31, 1, 0), (33, 1, 0)], dist, "capacity-32"))
+    # 33 / 34 / 40 offered at once: beyond the PendingQueue (outside the property's quantifier, the Spec
+    # is not evaluated: field `tieonly`); model and code must still do the same (C20_capacity_refuted)
+    for i in range(2 if tier == "quick" else 8):
+        n = 40
+        k = [33, 34, 40, 36][i % 4]
+        ports = [("f", "0", "1")] * n
+        ev = ["M%d.1" % a for a in range(n)] + ["r"] * n
+        ev += ["C%d.%d.1.0" % (j, rng.randrange(128)) for j in range(k)]
+        ev += ["C%d.2.1.0" % rng.randrange(31, k) for _ in range(3)]
+        ev += ["n"] * (k + 3) + ["r"] * (k + 4) + ["C%d.%d.1.0" % (j, rng.randrange(128)) for j in range(0, k, 3)]
+        ev += ["U%d.1" % rng.randrange(k), "r", "C%d.7.1.0" % rng.randrange(31, k)]
+        out.append(mk_case(rng, ports, ev, [(0, 1, 0), (31, 1, 0), (32, 1, 0), (33, 1, 0)], dist, "capacity-over", "tieonly"))
     # the pending ring wraps after 32 learns
     for i in range(3 if tier == "quick" else 40):
         ports = pick_ports(rng)
@@ -342,10 +418,14 @@ def gen(rng, tier, dist):
     return out
 
 # ------------------------------------------------------------ the Spec -------
-def quiescent(case, impl):
-    """No midi-bind that is not the answer to a midi-use-CC is put on the queue
-    while a controller is pending, and no controller is offered while such a
-    bind is on the queue.  (Same predicate as MidiModel.quiescent.)"""
+def nocross(case, impl):
+    """No midi-bind crosses a midi-use-CC (same predicate as MidiSpec.nocross, which the model
+    driver evaluates on its own records; canon() puts both values into the compared lines):
+      N1  a midi-bind that is not the answer to a midi-use-CC (map / unMap / clear) is sent only
+          when every pending controller's answer is already on its way (pending controllers =
+          answering binds in flight);
+      N2  no controller is offered while such a bind is on its way.
+    Computed from the history and the records only."""
     f = case.split(" ")
     evs = parse_events(f[2])
     recs, crashed, _ = parse_impl(impl)
@@ -353,10 +433,10 @@ def quiescent(case, impl):
     chR = []
     for (k, a), rec in zip(evs, recs):
         if k in "MUX":
+            if "B" in rec and pend != chR.count("Ba"):
+                return False
             for it in rec:
                 if it == "B":
-                    if pend != 0:
-                        return False
                     chR.append("Bf")
                 elif it in ("W", "R"):
                     chR.append(it)
@@ -372,9 +452,32 @@ def quiescent(case, impl):
         elif k == "r":
             if chR:
                 m = chR.pop(0)
-                if m[0] == "B" and pend > 0:
+                if m == "Ba" and pend > 0:
                     pend -= 1
     return True
+
+def pending_before(case, impl, upto):
+    """the realtime side's pending controllers before event `upto`, from the records alone: an
+    offered controller enters at the back, every delivered midi-bind that answers a midi-use-CC
+    removes the front (same function as MidiSpec.pending_of)"""
+    f = case.split(" ")
+    evs = parse_events(f[2])
+    recs, crashed, _ = parse_impl(impl)
+    P = []
+    chR = []
+    for i, ((k, a), rec) in enumerate(zip(evs, recs)):
+        if i >= upto:
+            break
+        if k in "MUX":
+            chR += ["Bf" if it == "B" else it for it in rec if it in ("B", "W", "R")]
+        elif k == "n":
+            chR += ["Ba" for it in rec if it == "B"]
+        elif k == "C":
+            P += [int(it[1:]) for it in rec if it.startswith("U")]
+        elif k == "r" and chR:
+            if chR.pop(0) == "Ba" and P:
+                P.pop(0)
+    return P
 
 def spec_walk(case, impl):
     """-> (failure or None, info dict)"""
@@ -464,15 +567,17 @@ def spec_walk(case, impl):
                         return "protocol: controller %d offered as %s at %s" % (cid, us, where), {}
                     if cid in learning:
                         return ("learn: controller %d is offered a second time while its assignment is under way "
-                                "(it would take a second queued address) at %s" % (cid, where)), {}
+                                "(it would take a second queued address) at %s" % (cid, where)), \
+                            {"event": k_ev, "cid": cid, "learning": True}
                     if avail <= 0:
-                        return "learn: controller %d is offered although no queued address waits at %s" % (cid, where), {}
+                        return ("learn: controller %d is offered although no queued address waits at %s" % (cid, where),
+                                {"event": k_ev, "cid": cid, "learning": False})
                     learning.add(cid)
                     avail -= 1
                     chN.append(cid)
                 elif want:
                     return ("learn: controller %d is not assigned, an address is queued, but it is not taken "
-                            "at %s" % (cid, where)), {}
+                            "at %s" % (cid, where)), {"event": k_ev, "cid": cid, "learning": False}
         elif k == "n":
             if not chN:
                 if rec != ["e"]:
@@ -496,9 +601,12 @@ def spec_walk(case, impl):
                     return "protocol: assignment not announced (%s) at %s" % (rec, where), {}
                 chR.append(("B", dict(asgN), cid))
             else:
-                if rec != ["A%d:-" % cid]:
+                if rec == ["A%d:-" % cid, "B"]:       # told so: the announcement releases the controller on arrival
+                    chR.append(("B", dict(asgN), cid))
+                elif rec != ["A%d:-" % cid]:
                     return "learn: no address is queued, yet %s at %s" % (rec, where), {}
-                learning.discard(cid)
+                else:
+                    learning.discard(cid)
         elif k == "r":
             if not chR:
                 if rec != ["e"]:
@@ -520,29 +628,66 @@ def spec_walk(case, impl):
         return "crash: the code crashed at event %d of %s" % (len(recs), f[2]), {}
     return None, {"messages": nmsg, "assignments": nassign}
 
+def tie_only(case):
+    f = case.split(" ")
+    return len(f) > 3 and f[3] == "tieonly"
+
 def spec_check(case, impl):
     if impl in ("BADCASE", "PIPEFAIL") or impl.startswith("NOOUT"):
         return "harness: " + impl
+    if tie_only(case):      # more than 32 controllers learning at once: outside the property's quantifier
+        return None
     return spec_walk(case, impl)[0]
 
 def nontrivial(case, impl):
+    if tie_only(case):
+        return False
     fail, info = spec_walk(case, impl)
     return fail is None and info.get("assignments", 0) >= 2 and info.get("messages", 0) >= 2
 
 def classify(case, impl, failure):
-    if not quiescent(case, impl):
-        return "bind-crosses-use-cc"
+    """No known finding is left for C20: the class bind-crosses-use-cc (D19) was repaired in the
+    repository (MidiMapperStorage::answers); the old functions and the witness are in
+    coq/Midi/MidiRegress.v, the witness histories in corpus/C20/witnesses.txt.  Every Spec failure
+    is a violation, in crossing histories too."""
     return None
 
+def ring_of_state(state):
+    """the pending ring in the end state printed by harness / driver, oldest first"""
+    import re
+    m = re.search(r"pend=([-0-9,]*);pr=(\d+);pw=\d+;ps=(\d+)", state)
+    if not m:
+        return None
+    vals = [int(x) for x in m.group(1).split(",")]
+    pr, ps = int(m.group(2)), int(m.group(3))
+    return [vals[(pr + i) % 32] for i in range(ps)]
+
 def canon(case, line):
-    # the crash text differs (ASan report vs model), the prefix must agree
-    return line
+    """The model driver's line ends in #N=<MidiSpec.nocross on the model's records>#P=<MidiSpec.pending_of>
+    #R=<that list is what the model's ring holds>; the harness line gets the same three computed by this
+    file (nocross, pending_before, ring_of_state) from the implementation's records and end state: the
+    correspondence run fails when the Coq predicates and the classifier's disagree on a history, or when
+    the pending set the classifier infers from the records is not the one the real ring holds."""
+    if "#N=" in line:
+        return line
+    if line in ("BADCASE", "PIPEFAIL") or line.startswith("NOOUT") or line.startswith("CRASH:"):
+        return line
+    P = pending_before(case, line, 1 << 30)
+    out = line + "#N=%d#P=%s" % (1 if nocross(case, line) else 0, ",".join(map(str, P)))
+    if "|" in line:
+        out += "#R=%d" % (1 if ring_of_state(line.split("|", 1)[1]) == P else 0)
+    return out
 
 RULE = ("histories over 2..4 addresses drawn from a pool of int and float ranges (incl. the 0..127 int special case, "
         "non-representable decimal bounds, a degenerate and a tiny range) and 2..6 controllers (channel/NRPN spellings "
         "mixed, aliases of one id included): fully synchronous histories; histories quiescent at map/unMap/clear with "
         "several learns in flight; random asynchronous interleavings; D19-shaped crossings; 128-value sweeps through a "
-        "coarse(+fine) binding; second-controller / both-kinds / clear-with-queue histories; 32 controllers offered at once; 34..70 learn/unMap cycles (the 32-slot pending ring wraps); and every placement of <=3 (quick) / <=5 (thorough) deliveries into short histories. "
+        "coarse(+fine) binding; second-controller / both-kinds / clear-with-queue histories; clear() between the two halves' messages "
+        "(watch used up, midi-use-CC still on its way, every order of the following deliveries, then a fresh learn); map/unMap/clear "
+        "sent while answered controllers are still pending; 32 controllers offered at once; 33..40 offered at once (tie only, outside the "
+        "quantifier); 34..70 learn/unMap cycles (the 32-slot pending ring wraps); and every placement of <=3 (quick) / <=5 (thorough) "
+        "deliveries into short histories. The side condition nocross is computed by the Coq model (extracted) and by the plug-in on every "
+        "history and compared. "
         "Each history ends with a drain and two values per controller. Non-trivial = Spec holds, >=2 assignments and "
         ">=2 parameter messages.")
 TRUSTED = ["harness/h_C20.cpp: real MidiMappernRT + MidiMapperRT, rt_cb / frontend queued by the harness, nRT->RT messages "
@@ -559,24 +704,26 @@ ASSUMPTIONS = ["controller values are 7-bit (0..127); port bounds are finite flo
 TECHNIQUE = ("Coq proofs about a two-process model (nRT half, RT half, two FIFO channels, histories = external events + "
              "deliveries) of midimapper.cpp + differential correspondence against the real classes under ASan with "
              "harness-controlled delivery order")
-LEVEL_TEXT = ("For every history (unbounded) of map/unMap/clear/CC/deliveries that is quiescent (no midi-bind other than the answer "
-              "to a midi-use-CC is sent while a controller is pending, none is offered while such a bind is under way) over at most "
-              "32 controllers: no snapshot on either side ever holds a controller twice and every offered controller finds a queued "
-              "address and is in no entry of the current snapshot (C20_quiescent_learn_partial, invariant over both processes, the "
-              "channels and the PendingQueue ring). Per operation, for all states: 14-bit composition (C20_compose_14bit), the "
-              "learned controller gets the slot with the queued address's callback and all others keep theirs "
-              "(C20_learn_oldest_partial: first controller of an address), unMap removes exactly the controller "
-              "(C20_unmap_stops), no entry => no message (C20_unassigned_silent), bind installs the snapshot (C20_bind_installs); "
-              "every callback sends to its own address a value in [min,max] that grows with the 14-bit input "
-              "(C20_bijection_range/_monotone/_monotone_7bit, for the executable rounding, proved equal to Flocq's round-to-nearest-even). The unrestricted statement is refuted by a computed "
-              "witness (C20_refuted = D19, reproduced on the code, known finding). All theorems closed under the global context.")
-LEVEL_NOTE = ("Stage 2: the system invariant Inv (inv_map / mapping / callback / value vectors and every snapshot consistent) is "
-              "preserved by every event of a quiescent history and makes every step defined (C20_inv_init, C20_inv_step, "
-              "C20_quiescent_crash_free_partial); C20_learn_oldest covers the second controller of an address; "
-              "C20_refines_spec_partial: records of the model = records of the abstract specification (finite map + FIFO) on "
-              "every quiescent history, values included (stage 3: cloneValues keeps the 14-bit composition).  "
-              "The bound of 32 controllers is tight (C20_capacity_refuted, outside the property's quantifier).  "
-              "Not modelled: float overflow / NaN / -0.0.  Also checked on every run by the "
-              "correspondence run (model = code on every generated history incl. all placements of <=3/<=5 deliveries into short "
-              "histories, every state field compared) and the independent Spec oracle. Side condition = classifier "
-              "bind-crosses-use-cc. See notes/C20.md.")
+LEVEL_TEXT = ("For EVERY history (unbounded) of map/unMap/clear/CC/deliveries - the realtime and the non-realtime half exchanging their "
+              "messages in any order - over at most 32 controllers: the model's records, parameter messages with their values included, are "
+              "exactly those of the abstract specification (C20_refines_spec: finite map controller -> (address, kind), FIFO of addresses "
+              "waiting to learn, delayed copy, 7-bit values, 14-bit composition); no crash, every vector access in range "
+              "(C20_inv_step, C20_crash_free); no snapshot holds a controller twice and no controller is given a second address "
+              "(C20_learn_once); the pending ring holds exactly the controllers whose answer is outstanding (C20_pending_exact); a parameter "
+              "message comes only from a controller assigned before (C20_unassigned_silent_history). Per operation, for all states: 14-bit "
+              "composition (C20_compose_14bit), the learned controller gets the slot with the queued address's callback and all others keep "
+              "theirs (C20_learn_oldest), unMap removes exactly the controller (C20_unmap_stops), no entry => no message "
+              "(C20_unassigned_silent), bind installs the snapshot (C20_bind_installs); every callback sends to its own address a value in "
+              "[min,max] that grows with the 14-bit input (C20_bijection_range/_monotone/_monotone_7bit, for the executable rounding, proved "
+              "equal to Flocq's round-to-nearest-even). Partial: 'every midi-use-CC finds a queued address' needs nocross "
+              "(C20_nocross_learn_partial; after a crossing clear() it finds none and is answered with the unchanged mapping).")
+LEVEL_NOTE = ("Stage 4: D19 (every midi-bind released the oldest pending controller) repaired in the repository - a snapshot says which "
+              "controller's midi-use-CC it answers (MidiMapperStorage::answers), only such a snapshot releases a pending controller, a "
+              "midi-use-CC that finds no address is answered with the unchanged mapping; the model follows, the old functions and the "
+              "witness are in coq/Midi/MidiRegress.v (C20_d19_regress, stuck_refuted), the same histories on the repaired functions in "
+              "C20_d19_repaired / stuck_repaired.  With it the history-level theorems lost their side condition.  nocross remains the side "
+              "condition of C20_nocross_learn_partial only; it is the same predicate in MidiSpec.v and in this file, the model driver prints "
+              "its value, the pending set the records imply (pending_of) and whether the model's ring holds it; canon() sets the plug-in's "
+              "values and the real ring beside them, so the correspondence run compares all of it on every history.  No known-finding class "
+              "is left.  The bound of 32 controllers is tight (C20_capacity_refuted, outside the property's quantifier; model and code agree "
+              "beyond it, tie-only cases).  Not modelled: float overflow / NaN / -0.0.  See notes/C20.md.")
